@@ -220,6 +220,68 @@ inline int finish()
 }
 
 // ---------------------------------------------------------------------------------------
+// Free-running harnesses (real threads, no scheduler): a call that never returns must become a
+// violation with the case's replay string, not a unit time-out.  CaseWatch arms a watchdog thread
+// for the duration of one case; on expiry the report so far is written and the process ends.
+// ---------------------------------------------------------------------------------------
+struct WatchState
+{
+  std::mutex m;
+  std::string sig, replay;
+  double start = 0, limit = 0;
+  bool running = false;
+};
+inline WatchState &W()
+{
+  static WatchState w;
+  return w;
+}
+inline void watchdog_loop()
+{
+  for (;;) {
+    usleep(200000);
+    std::string sig, rp;
+    double lim = 0;
+    {
+      std::lock_guard<std::mutex> g(W().m);
+      if (W().limit > 0 && now_s() - W().start > W().limit) {
+        sig = W().sig;
+        rp = W().replay;
+        lim = W().limit;
+      }
+    }
+    if (rp.empty())
+      continue;
+    violation(sig + "|the call did not return", rp, "no return within " + std::to_string((int)lim) + " s");
+    capped("the cases after " + rp + " were not run (the process was stopped inside a call that does not return)");
+    if (replaying())
+      printf("VIOLATED %s|the call did not return :: no return within %d s\n", sig.c_str(), (int)lim);
+    flush();
+    _exit(replaying() ? 1 : 0);
+  }
+}
+struct CaseWatch
+{
+  CaseWatch(const std::string &sig, const std::string &replay, double limit_s = 60)
+  {
+    std::lock_guard<std::mutex> g(W().m);
+    if (!W().running) {
+      W().running = true;
+      std::thread(watchdog_loop).detach();
+    }
+    W().sig = sig;
+    W().replay = replay;
+    W().start = now_s();
+    W().limit = limit_s;
+  }
+  ~CaseWatch()
+  {
+    std::lock_guard<std::mutex> g(W().m);
+    W().limit = 0;
+  }
+};
+
+// ---------------------------------------------------------------------------------------
 // Forked shards with crash attribution.
 //
 // run_sharded(n, body): body(shard, resume_after) enumerates the cases of one shard in a
